@@ -1,4 +1,5 @@
 import CrdtModel.Props.C04
+import CrdtModel.Props.C05
 import CrdtModel.Spec.Lattice
 set_option linter.unusedSectionVars false
 /-!
@@ -70,5 +71,34 @@ theorem vclock_eq {U K K' : List (Dot α)} {s s' : VClock α} (h : vclockSys.Rea
     (h' : vclockSys.Reach U s' K') (e : ∀ o, o ∈ K ↔ o ∈ K') : decide (s = s') = true := by
   simp [converge (R := vclockSys) trivial h h' e]
 end lattice
+
+/-! ## Map, key level (any value type) -/
+section map
+open CMap
+variable {K' V VOp : Type} [LinOrd K'] {ops : ValOps V VOp A} {UM L : List (MapOp K' VOp A)} {m : CMap K' V A}
+
+/-- once every known key remove's context has been caught up with, no pending key remove is kept -/
+theorem map_no_pending_residue (wf : LogWF (keyLog UM)) (h : CMap.Reach ops UM m L)
+    (caught_up : ∀ c ks, MapOp.rm c ks ∈ L → ∀ a, c.get a ≤ clk (keyLog L) a) : m.deferred = ∅ := by
+  apply FMap.ext
+  intro c
+  cases hg : m.deferred.get? c with
+  | none => simp
+  | some S =>
+    exfalso
+    obtain ⟨⟨ks, hin⟩, ⟨a, ha⟩⟩ := (C05.deferred_iff wf h c).mp (by simp [hg])
+    have := caught_up c ks hin a
+    omega
+
+/-- no empty entry: every stored entry clock is non-empty, zero-free and equals the key's surviving witnesses -/
+theorem map_no_empty_entry (wf : LogWF (keyLog UM)) (h : CMap.Reach ops UM m L) (k : K') (en : MapEntry V A)
+    (hg : m.entries.get? k = some en) : en.clock.isEmpty = false ∧ en.clock.NoZero ∧ ∀ a, en.clock.get a = E (keyLog L) k a := by
+  have r := (keys_rep wf h).2
+  have hk : m.keysView.entries.get? k = some en.clock := by simp [keysView, hg]
+  refine ⟨(r.ewf k en.clock hk).2, (r.ewf k en.clock hk).1, fun a => ?_⟩
+  have := r.entries k a
+  simpa [Orswot.entryGet, hk] using this
+
+end map
 
 end Crdt.C20
